@@ -149,12 +149,28 @@ func runCrash(seed int64, nops int, size uint64, prof string, unstable bool, out
 	defer f.Close()
 	w := bufio.NewWriterSize(f, 1<<20)
 	defer w.Flush()
-	r := NewRunner(size, w)
+	var r *Runner
+	var base *SDisk
+	minEv := 0
+	if prof == "firstboot" {
+		// recorded from the empty disk on: formatting, the first transactions, and the window in which the root
+		// directory exists only in the log; crash points are taken from the moment MakeNfs has returned
+		r = &Runner{sz: size, w: w, du: NewDumper(), handles: make(map[int][]byte), autoIdle: true, hist: make(map[string]int)}
+		r.d = NewSDisk(size)
+		base = r.d.StartRecording()
+		r.srv = nfs.MakeNfs(r.d)
+		r.attachTracer()
+		minEv = r.d.NEvents()
+	} else {
+		r = NewRunner(size, w)
+	}
 	r.srv.Unstable = unstable
 	r.noDump = true
 	r.autoIdle = false
 	r.Init()
-	base := r.d.StartRecording()
+	if base == nil {
+		base = r.d.StartRecording()
+	}
 	for a, b := range base.blocks {
 		fmt.Fprintf(w, "B0 %d %s\n", a, hex.EncodeToString(b))
 	}
@@ -174,7 +190,13 @@ func runCrash(seed int64, nops int, size uint64, prof string, unstable bool, out
 		script, focusOp = refusedThenCommitScript(seed, fi.Wtmax)
 		nops = len(script)
 	}
-	minEv := 0
+	if prof == "firstboot" {
+		s := &scripter{}
+		c := s.add(Op{Proc: "create", H: "root", Name: "first"})
+		s.add(Op{Proc: "write", H: fmt.Sprintf("@%d", c), Off: 0, Cnt: 3000, Stable: 2, Data: pat(3000, int(seed%50))})
+		s.add(Op{Proc: "mkdir", H: "root", Name: "d"})
+		script, nops = s.ops, len(s.ops)
+	}
 	for i := 0; i < nops; i++ {
 		var o Op
 		if script != nil {
@@ -206,6 +228,17 @@ func runCrash(seed int64, nops int, size uint64, prof string, unstable bool, out
 			fmt.Fprintf(w, "V b\n")
 		} else {
 			fmt.Fprintf(w, "V w %d %s\n", e.A, hex.EncodeToString(e.Data))
+		}
+	}
+	if prof == "firstboot" {
+		// from the first log commit on (the transaction that creates the root directory): before it the disk is
+		// still being formatted, which is not an operation of the server
+		minEv = 0
+		for i, e := range evs {
+			if !e.Barrier && e.A == 0 {
+				minEv = i + 1
+				break
+			}
 		}
 	}
 	cands := candidates(base, evs)
